@@ -686,7 +686,9 @@ class DAGRunConcurrentManager(DAGRunManagerLike):
             self._node_storage.set_node_result(node_id, result)
 
             # TODO: Needs to reorganize saving policy for artifact storage
-            await self.ctx.save_node_result(node_id, result)
+            # A Recurrent marker and a failure kept as a value inside a OneOf candidate are not results of the node
+            if not isinstance(result, (Recurrent, BaseException)):
+                await self.ctx.save_node_result(node_id, result)
 
         finally:
             if not to_unlock_descendants:
